@@ -349,6 +349,7 @@ type LayoutCase struct {
 	Neigh     bool     `json:"neigh"`
 	Alpha     string   `json:"alpha"` // patterns: all of <= PatLen symbols over Alpha + wildcard
 	PatLen    int      `json:"patlen"`
+	Enc       string   `json:"enc,omitempty"` // "hex": Tokens and Alpha are hex (raw bytes)
 }
 
 type layoutStats struct {
@@ -461,14 +462,43 @@ var layoutRanges = []RangeQ{
 	{From: sp("b"), To: sp("a"), IncFrom: true, IncTo: true},
 }
 
+var layoutRangesRaw = []RangeQ{
+	{From: sp("\x00"), To: sp("\xff"), IncFrom: true, IncTo: true},
+	{From: sp("\x00"), To: sp("\xff")},
+	{From: sp("a"), To: nil, IncFrom: true},
+	{From: nil, To: sp("a\xff")},
+	{From: sp("\xff"), To: nil, IncFrom: false},
+	{From: sp(""), To: sp("\x00\xff"), IncFrom: false, IncTo: true},
+}
+
 func runLayout(c LayoutCase) (evid.Result, error) {
 	res := evid.Result{}
-	st, err := runDict(c.Tokens, c.Chunks, c.Threshold, c.Neigh, allPatterns(c.Alpha, c.PatLen), layoutRanges)
+	var err error
+	if c.Tokens, err = decStrings(c.Enc, c.Tokens); err != nil {
+		return res, err
+	}
+	if c.Alpha, err = unhx(c.Enc, c.Alpha); err != nil {
+		return res, err
+	}
+	ranges := layoutRanges
+	if c.Enc == encHex {
+		ranges = layoutRangesRaw
+	}
+	st, err := runDict(c.Tokens, c.Chunks, c.Threshold, c.Neigh, allPatterns(c.Alpha, c.PatLen), ranges)
 	if err != nil {
 		return res, err
 	}
 	res.Evals = st.evals
 	res.Labels = layoutLabels(c.Chunks, st)
+	if c.Enc == encHex {
+		res.Labels = append(res.Labels, "alphabet:rawbytes")
+		for _, t := range c.Tokens {
+			if len(t) > 0 && t[0] == 0xff {
+				res.Labels = append(res.Labels, "dict-has-0xff-prefixed-token")
+				break
+			}
+		}
+	}
 	// non-trivial: >= 2 blocks, and for some hinted pattern (entries pre-selected) a matching
 	// token sits directly at a block border
 	res.NonTrivial = len(c.Chunks) >= 2 && st.border
@@ -557,6 +587,10 @@ func TestEnumLayout(t *testing.T) {
 	r.Note("layout_patterns_per_case", len(allPatterns("ab", patLen)))
 	r.Note("layout_max_pattern_symbols", patLen)
 	r.Note("layout_ranges_per_case", len(layoutRanges))
+	rawN, rawPatLen := envInt("C13_RAWDICT_MAX", 3), envInt("C13_RAWDICT_PATLEN", 4)
+	r.Note("layout_raw_scope", "every dictionary of <= max_tokens tokens over the 13 byte strings of length <= 2 over {a, 0x00, 0xff} x every split; neighbour fields present")
+	r.Note("layout_raw_max_tokens", rawN)
+	r.Note("layout_raw_patterns_per_case", len(allPatterns(rawAlpha, rawPatLen)))
 	evid.Enum(t, func(yield func(LayoutCase) bool) {
 		ok := true
 		eachSubset(universe("ab", 2), 7, func(toks []string) bool {
@@ -592,6 +626,27 @@ func TestEnumLayout(t *testing.T) {
 				}
 				for _, thr := range thrs {
 					if ok = yield(LayoutCase{Tokens: toks, Chunks: chunks, Threshold: thr, Neigh: true, Alpha: "ab", PatLen: patLen}); !ok {
+						return false
+					}
+				}
+				return true
+			})
+			return ok
+		})
+		if !ok {
+			return
+		}
+		// raw bytes: every dictionary of <= rawN tokens over the 13 byte strings of length <= 2
+		// over {a, 0x00, 0xff} x every split; thresholds rotate (all of them with C13_DICT_ALLTHR)
+		eachSubset(universe(rawAlpha, 2), rawN, func(toks []string) bool {
+			eachComposition(len(toks), func(chunks []int) bool {
+				i++
+				thrs := layoutThresholds
+				if !allThr {
+					thrs = layoutThresholds[i%3 : i%3+1]
+				}
+				for _, thr := range thrs {
+					if ok = yield(LayoutCase{Tokens: encStrings(toks), Chunks: chunks, Threshold: thr, Neigh: true, Alpha: hx(rawAlpha), PatLen: rawPatLen, Enc: encHex}); !ok {
 						return false
 					}
 				}
